@@ -247,7 +247,14 @@ def as_it(ctx, v):
 
 def store_it(a0, it):
     if type(a0) is Ref:
-        a0.store(it)
+        r = a0
+        while True:
+            inner = r.load()
+            if type(inner) is Ref:
+                r = inner
+            else:
+                break
+        r.store(it)
 
 
 def collect_into(ctx, items, callee):
@@ -305,7 +312,7 @@ def install(prog):
 
     # ---------------------------------------------------------------- identity-like
     @B('Box::new', 'Rc::new', 'Arc::new', 'must_use', 're:^<.* as (Deref|DerefMut|AsRef|AsMut|Borrow|BorrowMut)>::(deref|deref_mut|as_ref|as_mut|borrow|borrow_mut)$',
-       'Box::new_uninit', 'std::boxed::box_assume_init_into_vec_unsafe', 'Box::leak', 'Rc::as_ref', 'black_box', 'std::hint::black_box',
+       'Box::leak', 'Rc::as_ref', 'black_box', 'std::hint::black_box',
        'Vec::as_slice', 'Vec::as_mut_slice', 'String::as_str', 'std::string::String::as_str', 'String::as_mut_str', 'PathBuf::as_path',
        'std::mem::drop', 'drop', 'Vec::into_boxed_slice', 'core::slice::into_vec', 'Rc::try_unwrap_or_clone', 'Rc::unwrap_or_clone',
        'Vec::shrink_to_fit', 'Vec::reserve', 'String::reserve', 'core::slice::as_ref', 'Option::as_deref', 'Option::as_deref_mut',
@@ -313,7 +320,7 @@ def install(prog):
     def b_id(ctx, a, callee):
         return a[0] if a else UNIT
 
-    @B('re:^<.* as Clone>::clone$', 'Option::cloned', 'Option::copied', 'core::slice::to_vec', 'str::to_owned', '<str as ToOwned>::to_owned',
+    @B('re:^<.* as Clone>::clone$', 'Option::cloned', 'Option::copied', 'core::slice::to_vec', 'slice::to_vec', 'str::to_owned', '<str as ToOwned>::to_owned',
        '<[] as ToOwned>::to_owned', 'Rc::clone')
     def b_clone(ctx, a, callee):
         v = D(a[0])
@@ -322,6 +329,16 @@ def install(prog):
         if type(v) is Agg and v.ty == 'Option' and v.variant == 1 and type(v.fields[0]) is Ref:
             return some(D(v.fields[0]))
         return v
+
+    @B('Box::new_uninit', 'Rc::new_uninit')
+    def b_new_uninit(ctx, a, callee):
+        return Ref(CellV(None).slot, 0, ())
+
+    @B('std::boxed::box_assume_init_into_vec_unsafe', 'Box::assume_init', 'Box::write')
+    def b_assume_init(ctx, a, callee):
+        if callee.endswith('write'):
+            a[0].store(a[1])
+        return D(a[0])
 
     @B('re:^<.* as Drop>::drop$')
     def b_unit(ctx, a, callee):
@@ -1020,7 +1037,7 @@ def install(prog):
     def b_iter(ctx, a, callee):
         v = D(a[0])
         if type(v) is Agg and v.ty.startswith('It:'):
-            return v
+            return a[0] if type(a[0]) is Ref else v
         if callee.endswith(('iter', '::into_iter')) and 'iter_mut' not in callee and 'IterMut' not in callee and type(a[0]) is Ref and not re.search(r'<&mut |<&\'\w+ mut ', callee):
             return it_of(ctx, v)
         if callee.endswith('drain'):
@@ -1038,6 +1055,9 @@ def install(prog):
 
     @B('re:^<.* as IntoIterator>::into_iter$')
     def b_into_iter_generic(ctx, a, callee):
+        v0 = D(a[0])
+        if type(a[0]) is Ref and type(v0) is Agg and v0.ty.startswith('It:'):
+            return a[0]         # `&mut I` is itself an iterator: keep the identity
         return as_it(ctx, a[0])
 
     @B('re:^<.* as Iterator>::next$', 're:^<.* as DoubleEndedIterator>::next_back$')
